@@ -657,6 +657,15 @@ func (t *T) Context() context.Context {
 		return t.ctx
 	}
 
+	// Cleanup may have started since we looked at the flag:
+	// it sets the flag before it takes the lock to cancel and clear the context,
+	// so a context created now would never be canceled.
+	if t.cleaning.Load() {
+		ctx, cancel := context.WithCancel(context.Background())
+		cancel()
+		return ctx
+	}
+
 	// Use the testing.TB's context as the starting point if available,
 	// and the Background context if not.
 	//
